@@ -9,6 +9,8 @@ PROPS_LOWER = "RotoV.Props.C01Lower" # T5: Spec value = value of the lowering mo
 PROPS_LIR = "RotoV.Props.C01Lir"     # LIR layer: the model of lir/lower.rs (scalar MIR CFG -> LIR CFG) preserves execution
 PROPS_MATCH = "RotoV.Props.C01Match" # match: Spec.evalArms is first-match; the guard chains of mir/lower/match_expr.rs (generated filters) are first-match
 MATCH_EXTRA = ["RotoV.Model.C01MatchLower", "RotoV.Model.Spec"]
+PROPS_CG = "RotoV.Props.C01Cg"       # code-generation layer: the generated control-flow arms of FuncGen::instruction emit code that runs as the LIR does
+CG_EXTRA = ["RotoV.Model.C01CgBase", "RotoV.Model.C01Cg", "RotoV.Lemmas.C01CgSim", "RotoV.Model.C01Lir"]
 LIR_EXTRA = ["RotoV.Model.C01Lir", "RotoV.Lemmas.C01LirSim", "RotoV.Model.C01MirRun"]
 LOWER_EXTRA = ["RotoV.Model.C01Resolve", "RotoV.Model.C01MirRun", "RotoV.Lemmas.C01Agree", "RotoV.Lemmas.C01Shape",
                "RotoV.Lemmas.C01MirOps", "RotoV.Lemmas.C01SpecOps", "RotoV.Lemmas.C01MirComplete", "RotoV.Lemmas.C01ScalarCode", "RotoV.Model.TraceSpec", "RotoV.Model.LowerS", "RotoV.Lemmas.LowerS",
@@ -31,7 +33,7 @@ def run(ctx):
     import glob
     for f in glob.glob(os.path.join(common.VERIF, "evidence", "replays", "C01-*.json")):
         os.remove(f)
-    ctx.extract(["optables", "dce", "c01match"])
+    ctx.extract(["optables", "dce", "c01match", "c01cg"])
     theorems, examples, axioms = [], 0, {}
     if os.path.exists(_ops_file()):
         ctx.prove(PROPS_OPS, extra_modules=["RotoV.Lemmas.Scalar", "RotoV.Model.RustStd", "RotoV.Model.Lir", "RotoV.Model.Clif"])
@@ -60,6 +62,11 @@ def run(ctx):
         theorems += ctx.coverage.get("theorems", [])
         examples += ctx.coverage.get("nonvacuity_examples", 0)
         axioms.update(ctx.coverage.get("axioms", {}))
+    if os.path.exists(os.path.join(common.LEAN, *PROPS_CG.split(".")) + ".lean"):
+        ctx.prove(PROPS_CG, extra_modules=CG_EXTRA)
+        theorems += ctx.coverage.get("theorems", [])
+        examples += ctx.coverage.get("nonvacuity_examples", 0)
+        axioms.update(ctx.coverage.get("axioms", {}))
     ctx.coverage["theorems"] = theorems
     ctx.coverage["nonvacuity_examples"] = examples
     ctx.coverage["axioms"] = axioms
@@ -82,6 +89,16 @@ def run(ctx):
         "generated Generated/C01Match and whose source shape the translator checks fragment by fragment; that the compiled match behaves as "
         "the arrangement says rests on the differential run of the match / match-order class representatives (JIT vs Spec) on every run; "
         "enum values in Model/Spec carry constructor NAMES, the harness prints the same names into the Roto source",
+        "the code-generation layer (Props/C01Cg) is a theorem about Model/C01Cg.lean: the builder interface of Model/C01CgBase.lean is this "
+        "project's reading of cranelift-frontend 0.127 (Switch::set_entry panics on a duplicate index, Switch::emit goes to the entry equal to "
+        "the value and to `otherwise` when there is none; one CLIF block per LIR label); the arms Jump / Switch / Assign / Return are the "
+        "re-translated Generated/C01Cg, the dispatch of the other instruction kinds, FuncGen::entry_block and everything below the builder "
+        "(expansion of Switch into br_table / brif, SSA construction, instruction selection) are not modelled; tie: cRun on the emitted code of "
+        "the model's LIR of the real MIR gives the Spec's value on every tuple (c01 lirrun), and the differential run of the real JIT",
+        "the `char` class representatives encode a char as its code point (u32 with == / != only) for the Spec and the harness interpreter; "
+        "the Roto source the compiler sees uses `char` and character literals",
+        "the `for` class representatives: Model/Spec has no lists; the oracle is the Spec on the unrolling of a loop over a list LITERAL "
+        "(elements evaluated once, in order, before the first iteration; one scope per element) — this project's reading of the manual",
         "the abstract CFG of Model/Dce.lean stands for mir::Item.blocks; its tie is the translator target `dce` plus running "
         "Dce.dce on the real pre-DCE CFG of every generated program (hook verif_hooks::c01::cfgs)",
     ]
@@ -92,13 +109,15 @@ def run(ctx):
              "`_` alone, reversed, all+`_`, guarded arms of one variant, guards with effects, nested / examinee / arithmetic / loop / "
              "parameter / unit forms, each run on EVERY variant; match-order — every well-typed sequence of <= 4 arms over variants and `_`, "
              "guarded or not, on the built-in Option and user enums x every combination of guard outcomes x every variant; float — 66 nested "
-             "unary/binary operator shapes on f32/f64 x boundary operand pairs (+-0, +-1, +-inf, NaN, subnormals, MAX, equal operands). "
+             "unary/binary operator shapes on f32/f64 x boundary operand pairs (+-0, +-1, +-inf, NaN, subnormals, MAX, equal operands); char — 17 "
+             "shapes of == / != on characters (helpers, literals, variables, parameters, if-else values, loop conditions) over code points that differ in the "
+             "low byte / above it / above 16 bits x 90 selector tuples, and 7 programs with char parameters / results called on every pair / triple of 14 boundary code points; for — 13 shapes of `for x in [..] { .. }` over list literals (the Spec runs the language-defined unrolling) x 216 i32 boundary triples. "
              "operator table: every (operator, type) x boundary^2 + random operands, JIT vs Spec; programs: type-directed "
              "generator (helpers, (mutual) recursion, while, if/else, early return, compound assignment, shadowing, dead code; every other "
              "program declares enum types with 2..5 variants and matches on them: arm shapes incl. one variant + `_`, guards, nested) x 30 "
              "argument tuples (boundary, random, small); T5 tie: 16 class representatives (one per construct of the fragment) first, then "
              "generated i32/bool programs with variables named by level: Spec value = composed-model value = JIT value on every tuple, and "
-             "the model's structured MIR = the real MIR dump of every function, the LIR model on the real MIR = the real LIR of every function, and mRun (real MIR) = lRun (model LIR) = Spec value; a class is distinct by (type, operator, outcome) in the table, by program "
+             "the model's structured MIR = the real MIR dump of every function, the LIR model on the real MIR = the real LIR of every function, and mRun (real MIR) = lRun (model LIR) = cRun (code the cg model emits for it) = Spec value; a class is distinct by (type, operator, outcome) in the table, by program "
              "text with >=1 execution where the Spec yields a value and the JIT agrees, by (construct set, arg type, ret type), or (t5:) by "
              "construct set of a fragment program whose MIR comparison succeeded on all functions, or (rep:) by class representative with "
              "the number of distinct results it was observed with",
